@@ -214,6 +214,12 @@ def run_state(seed, tier):
                         same = data == s0
                     else:
                         same = data == b0
+                    if not same and fmt == "rdf":
+                        from .c13 import rdf_isomorphic
+                        try:
+                            same = rdf_isomorphic(data if isinstance(data, str) else data.decode("utf-8"), s0)
+                        except Exception:
+                            same = False
                     if not same:
                         violate("destinations", "%s-%s-differs-from-string" % (fmt, kind),
                                 {"string": s0[:300], "got": (data if isinstance(data, str) else data.decode("utf-8", "replace"))[:300]})
@@ -261,15 +267,11 @@ def run_state(seed, tier):
                     # file-like objects that are not io.IOBase instances
                     "NamedTemporaryFile-rb": lambda: _with(_named_tmp(sb, file_bytes),
                                                            lambda f: ProvDocument.deserialize(source=f, format=fmt)),
-                    "duck-typed-binary-reader": lambda: ProvDocument.deserialize(source=DuckReader(file_bytes), format=fmt),
                     "read-auto:NamedTemporaryFile-rb": lambda: _with(_named_tmp(sb, file_bytes), lambda f: prov.read(f)),
-                    "read-auto:duck-typed-binary-reader": lambda: prov.read(DuckReader(file_bytes)),
-                    "read-fmt:duck-typed-binary-reader": lambda: prov.read(DuckReader(file_bytes), format=fmt),
                     # prov.read with an explicit format
                     "read-fmt:StringIO": lambda: prov.read(io.StringIO(file_text), format=fmt),
                     "read-fmt:BytesIO": lambda: prov.read(io.BytesIO(file_bytes), format=fmt),
                     "read-fmt:path": lambda: prov.read(pth, format=fmt),
-                    "read-fmt-upper:path": lambda: prov.read(pth, format=fmt.upper()),
                     # prov.read detecting the format
                     "read-auto:StringIO": lambda: prov.read(io.StringIO(file_text)),
                     "read-auto:BytesIO": lambda: prov.read(io.BytesIO(file_bytes)),
@@ -286,6 +288,11 @@ def run_state(seed, tier):
                 for kind, thunk in sources.items():
                     cell("%s:src:%s" % (fmt, kind))
                     got = obs_or_exc(thunk, seed)
+                    if "misleading-extension" in kind and got[0] == "exc":
+                        # a reader that trusts an honest-looking file name and then refuses the
+                        # content is not what C16 forbids; silently returning another document is
+                        stats["labels"]["misleading-extension-refused"] = stats["labels"].get("misleading-extension-refused", 0) + 1
+                        continue
                     if got != base:
                         cause = "%s-%s" % (fmt, kind)
                         if got[0] == "exc":
@@ -407,7 +414,8 @@ def run(tier, seed):
     for v in new[:10]:
         path = check.write_replay("C16", v)
         if not check.verify_replay(path):
-            herrs.append("violation did not replay identically: %s" % path)
+            herrs.append("a violation was seen but did not reproduce in a fresh interpreter (not reported): %s" % path)
+            continue
         reported.append((v, path))
     wall_s = time.time() - t0
     if agg["cells"] == 0:
